@@ -84,6 +84,18 @@ func (r *Run) send(req *simnet.Request, faults []Fault, defFrag string) *Resp {
 	if req.Frag != "" && req.Frag != "whole" {
 		r.stats.Faults["frag-"+req.Frag]++
 	}
+	if r.Plan.Config.HostBase && req.Host == "" {
+		// virtual-host style for about half of the bucket-addressed requests:
+		// the first path segment travels in the Host header.  The answer must
+		// be the one the path-style request gets.
+		r.reqCount++
+		if (r.Plan.Seed+r.reqCount)%2 == 0 {
+			if m := hostSplit.FindStringSubmatch(req.Target); m != nil {
+				req.Host, req.Target = m[1]+".sim", "/"+m[2]
+				r.stats.Faults["virtual-host-style"]++
+			}
+		}
+	}
 	if r.Plan.Config.LateEOF {
 		req.LateEOF = true
 		if len(req.Body) > 0 {
